@@ -378,7 +378,18 @@ class Interp:
             else:
                 x.ensure_right_canonical()
             mode = ins.get("mode", 0)
-            if mode == 0:
+            if mode == 3 and x.is_mps and x.site_num > 1:
+                # per-bond limits equal to the exact Schmidt ranks (tight, and decreasing towards the chain ends)
+                t = tensors_dense(x)
+                dims = list(self.dims)
+                nrm = max(np.linalg.norm(t), 1e-300)
+                lim = [1]
+                for c in range(1, len(dims)):
+                    sv = np.linalg.svd(t.reshape(int(np.prod(dims[:c])), -1), compute_uv=False)
+                    lim.append(max(1, int(np.sum(sv > 1e-11 * nrm))))
+                lim.append(1)
+                x.compress(temp_m_trunc=lim if ins.get("aslist", 0) == 0 else np.array(lim))
+            elif mode == 0 or mode == 3:
                 x.compress(temp_m_trunc=BIG)
             elif mode == 1:
                 x.compress(temp_m_trunc=[BIG] * (x.site_num + 1))
@@ -536,6 +547,32 @@ class Interp:
         if ok:
             self._new(self.S, c, ref, q, "apply", ins, "arith.apply")
             self.compare("arith.apply.operand", a, "state after being applied to")
+
+    def i_local_op(self, ins):
+        """apply a bond-dimension-1 operator acting on ONE site (all other site tensors keep their gauge)"""
+        from renormalizer.mps import Mpo
+
+        a = self.pick(self.S, ins["a"])
+        if a is None or len(self.S) > 12:
+            return
+        site = [0, self.n - 1, ins.get("site", 0) % self.n][ins.get("where", 2) % 3]
+        zero = tuple([0] * gen.qn_size(self.spec))
+        blocks = [p for p, q in gen.site_blocks(self.spec, site, real_only=True) if q == zero and p[0][1] != "I"]
+        if not blocks:
+            return
+        picks = blocks[ins.get("blk", 0) % len(blocks)]
+        term = {"f": [ins.get("fac", 1.5), 0.0], "ops": [list(x) for x in picks]}
+        ref, scale = gen.dense_operator(self.spec, [term], 0.0, self.bl)
+        out = ref @ a.model
+        if np.linalg.norm(out) <= 1e-9 * scale * max(np.linalg.norm(a.model), 1e-300):
+            return
+        ok, mpo = self.guard("create.local_mpo", Mpo, self.fresh_model(), [gen.build_op(self.spec, term)])
+        if not ok:
+            return
+        ok, c = self.guard("arith.local_op", mpo.apply, a.obj)
+        if ok:
+            self.r.classes.append(f"local_op.{['first', 'last', 'any'][ins.get('where', 2) % 3]}_site")
+            self._new(self.S, c, out, a.q, "local_op", ins, "arith.apply")
 
     def i_contract(self, ins):
         from renormalizer.utils import CompressConfig, CompressCriteria
@@ -722,5 +759,6 @@ def gauge_instr(draw, on="S"):
         ins["k"] = draw(st.integers(0, 6))
     if op == "compress_lossless":
         ins["dir"] = draw(st.integers(0, 1))
-        ins["mode"] = draw(st.integers(0, 2))
+        ins["mode"] = draw(st.sampled_from([0, 1, 2, 3, 3, 3]))
+        ins["aslist"] = draw(st.integers(0, 1))
     return ins
